@@ -289,6 +289,34 @@ func (c *Ctx) contractEffect(e *effects, ct *Contract, names calleeNames) {
 				e.setAll("modifies " + m.Text)
 				continue
 			}
+			if _, isPtr := t.Underlying().(*types.Pointer); !isPtr {
+				// p.a.b: the path below the pointer's element type
+				path := []string{x.Sel.Name}
+				cur := x.X
+				var bt types.Type
+				for {
+					se, ok := cur.(*ast.SelectorExpr)
+					if !ok {
+						break
+					}
+					path = append([]string{se.Sel.Name}, path...)
+					it := typeOf(se.X)
+					if it == nil {
+						break
+					}
+					if pt, ok := it.Underlying().(*types.Pointer); ok {
+						bt = pt.Elem()
+						break
+					}
+					cur = se.X
+				}
+				if bt == nil {
+					e.setAll("modifies " + m.Text)
+					continue
+				}
+				c.typeEffect(e, bt, path)
+				continue
+			}
 			if pt, ok := t.Underlying().(*types.Pointer); ok {
 				t = pt.Elem()
 			}
